@@ -481,7 +481,7 @@ func handle(c *kit.Case, k *centrifuge.VerifRedisKeyer, h centrifuge.BrokerEvent
 		return false
 	}
 	if err != nil && in != nil {
-		report(c, "e2e-valid-frame-rejected", "handleRedisClientMessage rejected a valid frame: "+err.Error(), in)
+		report(c, "e2e-valid-frame-rejected", "handleRedisClientMessage rejected a valid frame: "+q([]byte(err.Error())), in)
 		return false
 	}
 	return err == nil
